@@ -2,7 +2,11 @@
 """Regenerates MANIFEST.json from lib/manifest_entries.json (one entry per claimed property)."""
 import json, os
 HERE = os.path.dirname(os.path.dirname(os.path.abspath(__file__)))
+import glob
 ent = json.load(open(os.path.join(HERE, "lib", "manifest_entries.json")))
+ent["claimed"] = {}
+for f in sorted(glob.glob(os.path.join(HERE, "lib", "manifest.d", "C*.json"))):
+    ent["claimed"][os.path.basename(f)[:-5]] = json.load(open(f))
 props = [json.loads(l)["id"] for l in open(os.path.join(HERE, "properties.jsonl"))]
 checks = []
 for pid in props:
